@@ -1,0 +1,103 @@
+//go:build verif
+
+// Contracts for contract-based verification (/verif). Comment-only: with or without the
+// build tag "verif" this file adds nothing to the compiled package.
+
+package bandwidthlimiter
+
+// C17: the token bucket is a monitor; tokens never exceed the capacity and never go negative.
+//@ monitor Bucket b
+//@   lock b.mutex
+//@   protects tokenCount
+//@   invariant [bounds] 0 <= b.tokenCount && b.tokenCount <= b.capacity
+
+//@ spec bucketParamsOK(b *Bucket) bool = b.capacity > 0 && b.refillNumber > 0 && b.capacity <= 4611686018427387904 && b.refillNumber <= 4611686018427387904
+//@ typeinv Bucket b
+//@   inv bucketParamsOK(b)
+
+//@ func NewBucket
+//@   requires capacity <= 4611686018427387904 && refillNumber <= 4611686018427387904
+//@   modifies nothing
+//@   ensures [rejects-bad-parameters] capacity <= 0 || initialTokenCount < 0 || refillNumber <= 0 || refillInterval <= 0 || capacity < initialTokenCount ==> r0 == nil && r1 != nil
+//@   ensures [initial] r1 == nil ==> r0 != nil && fresh(r0) && r0.capacity == capacity && r0.tokenCount == initialTokenCount && r0.refillNumber == refillNumber && r0.refillInterval == refillInterval
+
+// one refill adds at most refillNumber tokens and never exceeds the capacity
+//@ func (*Bucket).produceTokens
+//@   modifies b.tokenCount
+//@   ensures [refill] old(b.tokenCount) < b.capacity ==> b.tokenCount == ite(old(b.tokenCount) + b.refillNumber < b.capacity, old(b.tokenCount) + b.refillNumber, b.capacity)
+//@   ensures [full-stays] old(b.tokenCount) >= b.capacity ==> unchanged(b.tokenCount)
+
+// tokens are handed out only if they are there, and exactly n of them
+//@ func (*Bucket).consumeTokens
+//@   requires n >= 0
+//@   modifies b.tokenCount
+//@   ensures [granted] n <= old(b.tokenCount) ==> r0 && b.tokenCount == old(b.tokenCount) - n
+//@   ensures [refused] n > old(b.tokenCount) ==> !r0 && unchanged(b.tokenCount)
+
+//@ func (*Bucket).getTokenCount
+//@   modifies nothing
+//@   ensures r0 == b.tokenCount
+
+//@ func min
+//@   modifies nothing
+//@   ensures r0 == ite(a < b, a, b)
+//@ func min64
+//@   modifies nothing
+//@   ensures r0 == ite(a < b, a, b)
+
+// conservation law of the bucket, by induction over any interleaving of the two operations above:
+// what was consumed plus what is left never exceeds the initial fill plus refills * refillNumber
+//@ lemma bucket-conservation-refill: forall tokens int, tokens2 int, consumed int, initial int, refills int, refill int, capacity int :: refill > 0 && consumed + tokens <= initial + refills * refill && (tokens < capacity ==> tokens2 == ite(tokens + refill < capacity, tokens + refill, capacity)) && (tokens >= capacity ==> tokens2 == tokens) ==> consumed + tokens2 <= initial + (refills + 1) * refill
+//@ lemma bucket-conservation-consume: forall tokens int, tokens2 int, consumed int, initial int, refills int, refill int, n int, ok bool :: n >= 0 && consumed + tokens <= initial + refills * refill && (n <= tokens ==> ok && tokens2 == tokens - n) && (n > tokens ==> !ok && tokens2 == tokens) ==> ite(ok, consumed + n, consumed) + tokens2 <= initial + refills * refill
+
+// chunking: consecutive sub-slices, each at most chunkSize long
+//@ typeinv ChunkIterator i
+//@   inv 0 <= i.offset && i.offset <= len(i.buf) && i.chunkSize > 0 && i.chunkSize <= 4611686018427387904
+//@ func (*ChunkIterator).Next
+//@   safety on
+//@   requires i != nil
+//@   modifies i.offset
+//@   ensures [end] old(i.offset) == len(i.buf) ==> isnil(r0) && unchanged(i.offset)
+//@   ensures [chunk] old(i.offset) < len(i.buf) ==> !isnil(r0) && sarr(r0) == sarr(i.buf) && len(r0) == ite(old(i.offset) + i.chunkSize < len(i.buf), i.chunkSize, len(i.buf) - old(i.offset)) && i.offset == old(i.offset) + len(r0)
+//@   ensures [bounded] len(r0) <= i.chunkSize
+
+//@ func NewChunkIterator
+//@   requires chunkSize > 0 && chunkSize <= 4611686018427387904
+//@   modifies nothing
+//@   ensures [nil-buffer] isnil(buf) ==> r0 == nil
+//@   ensures [starts-at-zero] !isnil(buf) ==> r0 != nil && fresh(r0) && r0.offset == 0 && r0.chunkSize == chunkSize && r0.buf == buf
+
+//@ event WriterWrite = call io.(Writer).Write
+//@ event ConsumeOK = ret bandwidthlimiter.(*Bucket).consumeTokens when r0
+//@ event ConsumeAny = call bandwidthlimiter.(*Bucket).consumeTokens
+
+// bytes are written only after the bucket granted exactly len(p) tokens, and at most once
+//@ func (*Throttler).bandwidthLimitingWrite
+//@   requires th.b != nil && th.metrics != nil
+//@   modifies httpOut, all(Bucket.tokenCount), th.metrics.ProducedBytes, th.metrics.TimeShapedNs, events(WriterWrite, ConsumeOK, ConsumeAny)
+//@   ensures [too-large-refused] len(p) > th.b.capacity ==> r1 == ErrBufferSizeTooLarge && r0 == 0 && delta(WriterWrite) == 0 && delta(ConsumeAny) == 0
+//@   ensures [at-most-one-write] delta(WriterWrite) <= 1
+//@   ensures [write-needs-grant] delta(WriterWrite) == 1 ==> delta(ConsumeOK) == 1 && last(ConsumeOK) < last(WriterWrite)
+//@   ensures [grant-is-spent] delta(ConsumeOK) <= 1
+//@   loop for: invariant delta(WriterWrite) == 0 && delta(ConsumeOK) == 0
+
+//@ func (*BandwidthLimitingWriter).ChunkedWrite
+//@   requires !isnil(p) && w.th != nil && w.th.b != nil && w.th.metrics != nil && bucketParamsOK(w.th.b)
+//@   modifies httpOut, all(Bucket.tokenCount), w.th.metrics.ProducedBytes, w.th.metrics.TimeShapedNs, events(WriterWrite, ConsumeOK, ConsumeAny)
+//@   ensures [every-write-after-a-grant] delta(WriterWrite) <= delta(ConsumeOK)
+//@   loop for: invariant delta(WriterWrite) <= delta(ConsumeOK) && i != nil && i.buf == p && 0 <= i.offset && i.offset <= len(i.buf) && i.chunkSize == w.th.b.capacity
+
+//@ func (*Throttler).start
+//@   requires th.metrics != nil
+//@   modifies th.running, th.metrics.StartReadingResponseMonoTimeMs
+//@ func (*Throttler).stop
+//@   requires th.metrics != nil
+//@   modifies th.running, th.metrics.FinishReadingResponseMonoTimeMs, th.metrics.OutboundThroughputBps
+
+//@ func (*BandwidthLimitingWriter).Write
+//@   requires w.th != nil && w.th.b != nil && w.th.metrics != nil && bucketParamsOK(w.th.b)
+//@   modifies httpOut, all(Bucket.tokenCount), w.th.running, w.th.metrics.StartReadingResponseMonoTimeMs, w.th.metrics.ProducedBytes, w.th.metrics.TimeShapedNs, events(WriterWrite, ConsumeOK, ConsumeAny)
+//@   ensures [every-write-after-a-grant] delta(WriterWrite) <= delta(ConsumeOK)
+
+//@ func (*BandwidthLimitingWriter).Close
+//@   requires w.th != nil && w.th.metrics != nil
